@@ -1,7 +1,7 @@
 #!/venv/bin/python
 """Verify a seeded change produced by a sub-agent and keep it under /verif/seeded/<id>/.
 
-usage: tools/keep_seed.py <PROP> <variant a|b> [--wt /tmp/wt/<PROP>] [--skip-tests]
+usage: tools/keep_seed.py <PROP> <variant a|b> [--as c] [--wt /tmp/wt/<PROP>] [--skip-tests] [check ids]
 Confirms in the scratch worktree: patch applies to pristine tree; existing test suite passes with the change; demo fails
 with the change and passes without. Then runs the registered checks of /verif against /repo with the patch applied
 (and undoes it) and records which check reported it.
@@ -68,7 +68,8 @@ def main():
                 caught[c] = {"exit": rcc, "reports": lines}
         finally:
             sh("git checkout -q -- .", cwd=chk)
-    dst = f"/verif/seeded/{prop}-{var}"
+    store_as = sys.argv[sys.argv.index("--as") + 1] if "--as" in sys.argv else var
+    dst = f"/verif/seeded/{prop}-{store_as}"
     os.makedirs(dst, exist_ok=True)
     shutil.copy(patch, f"{dst}/patch.diff")
     shutil.copy(f"{src}/demo.py", f"{dst}/demo.py")
@@ -78,13 +79,13 @@ def main():
     head = subprocess.check_output(["git", "-C", wt, "rev-parse", "--short", "HEAD"], text=True).strip()
     meta = {
         "property": prop,
-        "variant": var,
+        "variant": store_as,
         "base_commit": head,
         "needs_to_manifest": (notes.split("\n\n")[0][:600] if notes else ""),
         "ran": ran,
         "commands": [f"cd <worktree> && git apply patch.diff && PYTHONPATH=<worktree>/src /venv/bin/python -m pytest -q -p no:cacheprovider",
                      "PYTHONPATH=<worktree>/src /venv/bin/python demo.py  (exit != 0 with the change, 0 without)",
-                     "git -C /repo apply patch.diff && (cd /verif && ./check <id>) ; git -C /repo checkout -- ."],
+                     "tools/try_seed.sh seeded/<id>-<v>/patch.diff <id>   (scratch worktree + VERIF_REPO; /repo itself is never patched)"],
         "checks": caught,
     }
     with open(f"{dst}/meta.json", "w") as f:
